@@ -41,15 +41,24 @@ func VerifNotifyDrain(sm *ServerManager) {
 // VerifShutdown ends the goroutines a ServerManager owns without a RunLoop: group run loops and
 // the notify worker (harness worlds are created by the hundred thousand).
 func VerifShutdown(sm *ServerManager) {
+	var ps []*gb28181.PubSession
 	sm.mutex.Lock()
 	sm.groupManager.Iterate(func(g *Group) bool {
 		select {
 		case g.exitChan <- struct{}{}:
 		default:
 		}
+		g.mutex.Lock()
+		if g.psPubSession != nil {
+			ps = append(ps, g.psPubSession) // (owns a real socket: a harness that ends with one alive must not leak it)
+		}
+		g.mutex.Unlock()
 		return true
 	})
 	sm.mutex.Unlock()
+	for _, p := range ps {
+		p.Dispose()
+	}
 	sm.notifyHandlerThread.Dispose(taskpool.DisposeTypeAsap)
 }
 
